@@ -208,6 +208,8 @@ ROUND9 = {
 
 
 ROUND10 = {
+    'C03': 'Hooks of a nested request (a listener answering the paused notification with play) fail; EXCEPTED endings after requester faults are compared with the fault-free run.',
+    'C09': 'A spec class whose get_outline() brackets the declared outline with bookkeeping steps.',
     'C06': 'Process classes with a WAITING state class of their own.',
     'C07': 'A listener put on the loaded process; a checkpoint between future().cancel() and the kill; explicitly empty inputs.',
     'C11': 'Ports re-filed under another key of their namespace.',
